@@ -68,6 +68,17 @@ Definition fc_measures_after (c : fcv) : list (str * jv) :=
              (fold_left (fun d kv => dset (fst kv) (snd kv) d) (fv_measures c)
                         [(s_Supp, jnat (length (fv_extent_i c)))])).
 
+(* the same for a PatternConcept: Supp, the measures, Context_Hash *)
+Definition pc_measures_after (c : pcv) : list (str * jv) :=
+  dset s_Context_Hash (jhash (pv_hash c))
+       (fold_left (fun d kv => dset (fst kv) (snd kv) d) (pv_measures c)
+                  [(s_Supp, jnat (length (pv_extent_i c)))]).
+
+Definition concept_measures (c : conceptv) : list (str * jv) :=
+  match c with FC f => fv_measures f | PC p => pv_measures p end.
+Definition concept_measures_after (c : conceptv) : list (str * jv) :=
+  match c with FC f => fc_measures_after f | PC p => pc_measures_after p end.
+
 (* ---------------------------------------------------------------- admissible inputs *)
 
 Definition has_char (c : N) (s : str) : bool := existsb (N.eqb c) s.
